@@ -75,9 +75,10 @@ SpaceAttrH(n) == [al |-> {40, 41, 61, 97, 48, 49, 46, 59, 45}, n |-> n]         
 SpaceOp(n) == [al |-> {40, 41, 61, 60, 62, 126, 58, 97, 38, 33}, n |-> n]             \* ( ) = < > ~ : a & !
 SpaceNest(n) == [al |-> {40, 41, 38, 33, 61, 97}, n |-> n]                            \* ( ) & ! = a
 SpaceEsc(n) == [al |-> {40, 41, 61, 97, 92, 43, 45, 102, 50, 71}, n |-> n]              \* ( ) = a \ + - f 2 G : what may follow a backslash
+SpaceEscB(n) == [al |-> {61, 97, 92, 47, 48, 57, 58, 64, 71, 96, 103}, n |-> n]             \* = a \ / 0 9 : @ G ` g : the neighbours of the hex digits
 Spaces_dev == <<Space12(4), SpaceDn(5)>>
-Spaces_q == <<Space12(5), SpaceDn(7), SpaceSub(6), SpaceAttr(6), SpaceOp(5), SpaceNest(7), SpaceEsc(6)>>
-Spaces_t == <<Space12(7), SpaceDn(8), SpaceSub(7), SpaceAttrH(7), SpaceOp(6), SpaceNest(8), SpaceEsc(7)>>
+Spaces_q == <<Space12(5), SpaceDn(7), SpaceSub(6), SpaceAttr(6), SpaceOp(5), SpaceNest(7), SpaceEsc(6), SpaceEscB(6)>>
+Spaces_t == <<Space12(7), SpaceDn(8), SpaceSub(7), SpaceAttrH(7), SpaceOp(6), SpaceNest(8), SpaceEsc(7), SpaceEscB(6)>>
 
 (* --------------------------- syntax-tree pools ------------------------------ *)
 AnySeqs(pool) == {<<>>} \cup {<<x>> : x \in pool} \cup {<<x, y>> : x \in pool, y \in pool}
